@@ -173,6 +173,7 @@ var implOps = map[string]func(h caseHead, raw []byte) map[string]any{
 	"report": implReport,
 	"c14":    implC14,
 	"c05":    implC05,
+	"parse":  implParse,
 	"c15":    implC15,
 	"c07":    implC07,
 	"c08":    func(h caseHead, raw []byte) map[string]any { return implC08(h, raw) },
@@ -842,5 +843,27 @@ func implC15(h caseHead, raw []byte) map[string]any {
 	res["b"] = one(ch.ProfileB)
 	res["c"] = one(ch.ProfileC)
 	res["outcome"] = "ok"
+	return res
+}
+
+// parse: structural dump of the real profile parser's result
+func implParse(h caseHead, raw []byte) (res map[string]any) {
+	res = map[string]any{}
+	defer func() {
+		if r := recover(); r != nil {
+			res["outcome"] = "panic"
+			res["err"] = fmt.Sprint(r)
+		}
+	}()
+	d, err := verifhook.DumpProfile(h.Profile)
+	if err != nil {
+		res["outcome"] = "error"
+		res["err"] = err.Error()
+		return res
+	}
+	var parsed any
+	json.Unmarshal([]byte(d), &parsed)
+	res["outcome"] = "ok"
+	res["dump"] = parsed
 	return res
 }
